@@ -625,3 +625,11 @@ def reuse_true_after_drain(mw=3, timeout=0.05):
     ops += [sub(k, "gate") for k in keys] + [["expect_inside", mw]]
     ops += [["release", k] for k in keys] + [WAIT, shutdown(True)]
     return P(f"reuse-true-after-drain-w{mw}-t{timeout}", pool("reusable", mw, timeout), ops)
+
+
+def forced_while_worker_leaves(mw=2, timeout=0.05):
+    """One worker busy, the other leaving on idle timeout (announced, released by the manager,
+    not yet gone) when the forced shutdown arrives."""
+    return P(f"forced-while-worker-leaves-w{mw}-t{timeout}", pool("plain", mw, timeout),
+             [NEW] + [sub(f"a{i}", "ok", i) for i in range(mw)] + [WAIT, sub("g", "gate"), ["sleep", 4 * timeout],
+              ["shutdown", True, True], ["submit_expect", "z"]])
